@@ -1800,10 +1800,133 @@ func ruleSyncFailureRollsBack(r *Report) {
 			}
 		}
 	}
+	// the writer continues where it truncated: wherever the Truncate is, the success path behind it resets currentOffset
+	// to the offset that was handed to Truncate (the next rollback starts from currentOffset)
+	for _, f := range append([]*ssa.Function{fn}, moduleReach(p, []*ssa.Function{fn})...) {
+		if pk := fnPkg(f); pk == nil || shortPkg(pk.Path()) != "recordio" {
+			continue
+		}
+		for _, t := range CallsIn(f, Keys("os.File.Truncate")) {
+			if f != fn && !strings.Contains(strings.ToLower(f.Name()), "trunc") && f.Name() != "WriteSync" {
+				continue // Close truncates too, with nothing to continue
+			}
+			if f == fn || reachesFromSyncFailure(fn, f) {
+				okey := rule + "/" + FuncKey(f) + "/offset-reset"
+				arg := stripConvert(t.Call().Common().Args[len(t.Call().Common().Args)-1])
+				reset := false
+				eachInstr(f, func(x Site) {
+					st, isS := x.Instr.(*ssa.Store)
+					if !isS {
+						return
+					}
+					if ty, fld, _, isF := fieldAddrName(st.Addr); isF && ty == "recordio.FileWriter" && fld == "currentOffset" && stripConvert(st.Val) == arg && reachableFromSite(t, x) {
+						reset = true
+					}
+				})
+				if reset {
+					r.OK(rule, okey, t.Pos(), "currentOffset is set back to the truncation point")
+				} else {
+					r.Bad(rule, okey, t.Pos(), "the file is truncated but the writer's currentOffset keeps the old value: the next rollback target is taken from it, so a second failing fsync in the same file truncates at the wrong place and leaves (part of) a rejected record in front of the next accepted one — recovery fails with a magic number mismatch or replays the rejected call")
+				}
+			}
+		}
+	}
 	if bad {
 		r.Bad(rule, key, syncs[0].Pos(), "when fsync fails the error is returned but the record stays in the file, complete: Put(k,v1) ok, Put(k,v2) fails with EIO at fsync, Get(k) = v1 — after a crash and Open Get(k) = v2; a rejected Delete deletes the key after recovery; and since an empty memstore is not flushed at Close, the same happens after a clean restart")
 	} else {
 		r.OK(rule, key, syncs[0].Pos(), "a record whose sync failed is truncated away before the error is returned")
 	}
 	_ = p
+}
+
+// R-size-is-append-position (C15, C04): the stream writer takes FileWriter.Size() for the place it rolls back to when an
+// index append fails, and for the DataBytes it publishes. Both mean "where the next record goes" — after a Seek back that
+// is the current offset, not the largest offset ever written.
+func ruleSizeIsAppendPosition(r *Report) {
+	const rule = "size-is-append-position"
+	r.Rule(rule, 1, "recordio.FileWriter.Size returns exactly the field the next Write starts at (currentOffset): the table writer uses it as roll-back target and as the published DataBytes")
+	fn := r.NeedFunc(rule, "recordio.FileWriter.Size")
+	if fn == nil {
+		return
+	}
+	key := rule + "/recordio.FileWriter.Size"
+	isCur := isFieldLoad("recordio.FileWriter", "currentOffset")
+	ok := true
+	rets := returnsOf(fn)
+	for _, rs := range rets {
+		ret := rs.Instr.(*ssa.Return)
+		if len(ret.Results) != 1 || !isCur(ret.Results[0]) {
+			ok = false
+		}
+	}
+	if ok && len(rets) > 0 {
+		r.OK(rule, key, fn.Pos(), "Size() is the current offset")
+	} else {
+		r.Bad(rule, key, fn.Pos(), "Size() is not the append position: after a failed index append the table writer seeks \"back\" to it — two failures in a row leave an orphan record in data.rio that shifts every later value of a full scan, and a failed write followed by a shorter one makes DataBytes overstate the file")
+	}
+}
+
+// R-read-check-option-honoured (C09): whether values are verified on every read is the caller's choice
+// (skipHashCheckOnRead). Every consumer must get that choice as it is — not a combination with other options.
+func ruleReadCheckOptionHonoured(r *Report) {
+	const rule = "read-check-option-honoured"
+	r.Rule(rule, 2, "every argument bound to a parameter called skipHashCheck in package sstables is the constant false (always verify), the option field skipHashCheckOnRead loaded as it is, or a forwarded skipHashCheck parameter / field — never an expression over other options")
+	p := r.P
+	n := 0
+	for _, fn := range p.FuncsOfPkg("sstables") {
+		eachInstr(fn, func(s Site) {
+			c, ok := s.Instr.(*ssa.Call)
+			if !ok {
+				return
+			}
+			sc := c.Call.StaticCallee()
+			if sc == nil || !inModule(sc) || len(sc.Params) != len(c.Call.Args) {
+				return
+			}
+			for i, pr := range sc.Params {
+				if pr.Name() != "skipHashCheck" {
+					continue
+				}
+				n++
+				key := uniqKey(r, rule+"/"+FuncKey(fn)+"/"+FuncKey(sc))
+				r.Saw(fn)
+				a := c.Call.Args[i]
+				good := false
+				if cb, isC := constBool(a); isC && !cb {
+					good = true
+				}
+				if _, f, _, isF := loadOfField(a); isF && (f == "skipHashCheckOnRead" || f == "skipHashCheck") {
+					good = true
+				}
+				if pa, isP := a.(*ssa.Parameter); isP && pa.Name() == "skipHashCheck" {
+					good = true
+				}
+				if good {
+					r.OK(rule, key, s.Pos(), "the per-read verification choice is passed on unchanged")
+				} else {
+					r.Bad(rule, key, s.Pos(), "the per-read verification switch handed to "+FuncKey(sc)+" is not the caller's option as it is: with EnableHashCheckOnReads (load check left on) a byte altered after the table was opened is returned as a different, plausible value without an error")
+				}
+			}
+		})
+	}
+	if n == 0 {
+		r.Missing(rule, rule+"/none", "no consumer of a skipHashCheck parameter found")
+	}
+}
+
+// reachesFromSyncFailure: g is called (directly) in fn on a path that starts at the failure edge of file.Sync.
+func reachesFromSyncFailure(fn, g *ssa.Function) bool {
+	res := false
+	for _, s := range CallsIn(fn, Keys("os.File.Sync")) {
+		_, fail := errorEdges(s)
+		for _, e := range fail {
+			reach := reachFrom(e.To, nil)
+			eachInstr(fn, func(x Site) {
+				if c, ok := x.Instr.(*ssa.Call); ok && c.Call.StaticCallee() == g && reach[x.Block] {
+					res = true
+				}
+			})
+		}
+	}
+	return res
 }
